@@ -491,6 +491,20 @@ def clock(h12, desc, mi, se):
     return '%02d:%02d:%02d' % (h, mi, se)
 
 
+def point_ok(observed, spec):
+    """spec: the exact 'HH:MM:SS', or ('mod12', h, m, s) = minutes / seconds exact, hour equal modulo 12"""
+    if not isinstance(observed, str) or len(observed) != 8:
+        return False
+    if isinstance(spec, str):
+        return observed == spec
+    _, h, m, s_ = spec
+    return observed[2:] == ':%02d:%02d' % (m, s_) and observed[:2].isdigit() and int(observed[:2]) % 12 == h % 12
+
+
+def show_spec(spec):
+    return spec if isinstance(spec, str) else '%02d:%02d:%02d' % (spec[1] % 12, spec[2], spec[3])
+
+
 def pipeline(ctx, T):
     r = ctx.rng('tp-pipe')
     cases = []   # (query, expected start, expected end, family)
@@ -524,6 +538,27 @@ def pipeline(ctx, T):
         if ea == eb:
             continue
         cases.append(('from %s to %s' % (a, b), ea, eb, kind))
+    # one side designated only: the designated end is exact, the other keeps its minutes and its hour modulo 12 (C07: an
+    # hour without am / pm has the two readings twelve hours apart; which one the range takes is the library's choice)
+    for h1 in hs:
+        for h2 in hs:
+            if h1 == h2:
+                continue    # 'from 1 to 1am': no range is stated (the code answers a 24-hour one: `pure_edge_witnesses`)
+            for d in ('am', 'pm'):
+                if r.random() < (1.0 if ctx.thorough else 0.45):
+                    cases.append(('from %d to %d%s' % (h1, h2, d), ('mod12', h1, 0, 0), clock(h2, d, 0, 0), 'one-sided'))
+                if r.random() < (1.0 if ctx.thorough else 0.45):
+                    cases.append(('from %d%s to %d' % (h1, d, h2), clock(h1, d, 0, 0), ('mod12', h2, 0, 0), 'one-sided'))
+    for _ in range(200 if ctx.thorough else 40):
+        h1, h2, d = r.choice(hs), r.choice(hs), r.choice(['am', 'pm'])
+        m1, m2 = r.choice([0, 5, 10, 30, 59]), r.choice([5, 10, 30, 59])
+        if h1 == h2 and m1 == m2:
+            continue
+        if r.random() < 0.5:
+            cases.append(('from %d:%02d to %d:%02d%s' % (h1, m1, h2, m2, d), ('mod12', h1, m1, 0), clock(h2, d, m2, 0), 'one-sided-min'))
+        else:
+            cases.append(('from %d:%02d%s to %d:%02d' % (h1, m1, d, h2, m2), clock(h1, d, m1, 0), ('mod12', h2, m2, 0), 'one-sided-min'))
+    cases = [c for c in cases if not (isinstance(c[1], str) and c[1] == c[2])]
     # the witnesses of the three defects first
     cases = [('from 10pm to 12am', '22:00:00', '00:00:00', 'hours'), ('from 10:00:05am to 11:00:20am', '10:00:05', '11:00:20', 'sec-both'),
              ('from 10am to 5:10pm', '10:00:00', '17:10:00', 'min-right')] + cases
@@ -544,18 +579,19 @@ def pipeline(ctx, T):
             text, tn, vals = got[0]
             if tn != 'datetimeV2.timerange' or text != q:
                 why, sig = 'entity %r of type %s' % (text, tn), 'timerange-not-one-entity'
-            elif len(vals) != 1:
+            elif len(vals) != 1 and isinstance(ea, str) and isinstance(eb, str):
                 why, sig = '%d readings although both ends carry am / pm' % len(vals), 'timerange-designated-ambiguous'
             else:
-                v = vals[0]
-                st, en = v.get('start'), v.get('end')
-                if (st, en) != (ea, eb):
-                    why = 'resolved %s..%s, stated %s..%s' % (st, en, ea, eb)
-                    if st and en and en[:2] == '12' and eb[:2] == '00':
+                bad = [v for v in vals if not (point_ok(v.get('start'), ea) and point_ok(v.get('end'), eb))]
+                if bad:
+                    st, en = bad[0].get('start'), bad[0].get('end')
+                    why = 'resolved %s..%s, stated %s..%s' % (st, en, show_spec(ea), show_spec(eb))
+                    xa, xb = show_spec(ea), show_spec(eb)
+                    if st and en and en[:2] == '12' and xb[:2] == '00':
                         sig = 'timerange-12am-end'
-                    elif st and en and (st[:5], en[:5]) == (ea[:5], eb[:5]):
+                    elif st and en and (st[3:5], en[3:5]) == (xa[3:5], xb[3:5]) and point_ok(st[:5] + xa[5:], ea) and point_ok(en[:5] + xb[5:], eb):
                         sig = 'timerange-seconds-dropped'
-                    elif fam in ('min-left', 'min-right') and st and en and {st[3:5], en[3:5]} == {ea[3:5], eb[3:5]} and st[:2] == ea[:2] and en[:2] == eb[:2]:
+                    elif st and en and {st[3:5], en[3:5]} == {xa[3:5], xb[3:5]} and point_ok(st[:3] + xa[3:], ea) and point_ok(en[:3] + xb[3:], eb):
                         sig = 'timerange-minute-wrong-side'
                     else:
                         sig = 'timerange-endpoints'
@@ -565,7 +601,7 @@ def pipeline(ctx, T):
         if why:
             dtres.report(ctx, 'property', sig, 'parse(%r, ref %s): %s; got %r' % (q, R, why, got), failing_input={
                 'op': 'recognize_datetime', 'culture': 'en-us', 'query': q, 'reference': [2016, 11, 7, 10, 30, 0],
-                'expected_start': ea, 'expected_end': eb, 'observed': str(got)}, property_fails=True, cap=4)
+                'expected_start': show_spec(ea), 'expected_end': show_spec(eb), 'observed': str(got)}, property_fails=True, cap=4)
     # the TIMEX of the ranges whose end points are right: `(Tb,Te,PT…)` consistent with them (Lean predicate tripleOK)
     from . import dtcorpus
     try:
